@@ -68,7 +68,27 @@ def run(prog):
                     stores.append((bb, pl, v, ln))
         stores = [s_ for s_ in stores if label_index(_idx_of(s_[1]))[0] is not None] or stores
         errs = []
-        if len(stores) != 1:
+        sets = []
+        if nm == "from_litvec" and not stores:
+            # the model filled through its own mutator: `model.set(label(l), polarity(l))` per literal (PM decides `set`)
+            for g_ in canon.local_bodies(prog, fn, ok=lambda h: h.impl_self == fn.impl_self):
+                sets += [cs for cs in g_.terms.calls if cs.callee.name == "set" and "PartialModel" in cs.callee.key() and len(cs.args) == 3]
+        if sets:
+            for cs in sets:
+                lab, pol = strip(cs.args[1]), strip(cs.args[2])
+                if not (mir.is_call(lab, "label") and lab[2]):
+                    errs.append("?the variable set is %s" % show(lab)[:40])
+                elif mir.is_call(pol, "polarity") and pol[2] and strip(pol[2][0]) == strip(lab[2][0]):
+                    pass
+                elif mir.is_call(pol, "polarity"):
+                    errs.append("the variable of %s is set to the polarity of %s" % (show(lab[2][0])[:30], show(pol[2][0])[:30]))
+                elif pol[0] == "un" and pol[1] == "Not" and mir.is_call(strip(pol[2]), "polarity"):
+                    errs.append("the model assigns every listed variable the *opposite* of its literal's polarity")
+                elif pol[0] == "const":
+                    errs.append("every listed variable is assigned %s whatever its literal's polarity" % show(pol))
+                else:
+                    errs.append("?the value set is %s" % show(pol)[:40])
+        elif len(stores) != 1:
             errs.append("?expected one indexed store, found %d" % len(stores))
         else:
             bb, pl, v, ln = stores[0]
